@@ -940,6 +940,11 @@ fn standalone_braced_content(line_without_newline: &str) -> Option<&str> {
     return None;
   }
   let inner = &trimmed[1..trimmed.len() - 1];
+  // One brace group only: `{a} {b.mec}` starts and ends with a brace as well, but is two
+  // groups with text between them, not a stand-alone include.
+  if inner.contains('{') || inner.contains('}') {
+    return None;
+  }
   Some(inner)
 }
 
